@@ -19,10 +19,19 @@ var c04FreeCount int
 // c04FreeRun executes sc without gates. cancelAfter < 0: no cancellation; else the caller's context is
 // cancelled once cancelAfter connection events (reads + writes) have happened.
 func c04FreeRun(sc *c04Scen, cancelAfter int, fam string) (c04Obs, string) {
+	return c04FreeRunB(sc, cancelAfter, fam, false)
+}
+
+// busy: after its script the server keeps streaming Progress packets (one per millisecond) until the connection
+// is closed: a query that is not cancelled by the caller never runs out of packets to read
+func c04FreeRunB(sc *c04Scen, cancelAfter int, fam string, busy bool) (c04Obs, string) {
 	var o c04Obs
 	r, err := c04NewRun(sc, c04ReadTimeout)
 	if err != nil {
 		return o, "FAIL:handshake with the scripted server failed: " + err.Error()
+	}
+	if busy {
+		r.conn.busy = c04PacketBytes("prog", false)
 	}
 	// cancellation is injected synchronously inside the cancelAfter-th connection call of the query, so the
 	// query is certainly still running at that instant
@@ -94,6 +103,10 @@ func c04FreeReplay(h *H, fam string) bool {
 		panic(err)
 	}
 	for _, line := range strings.Split(string(raw), "\n") {
+		busy := strings.HasPrefix(line, "busyfree ")
+		if busy {
+			line = line[4:]
+		}
 		if !strings.HasPrefix(line, "free ") {
 			continue
 		}
@@ -111,7 +124,7 @@ func c04FreeReplay(h *H, fam string) bool {
 		}
 		ca, _ := strconv.Atoi(line[i+8:])
 		for k := 0; k < 5; k++ {
-			_, oracle := c04FreeRun(sc, ca, fam)
+			_, oracle := c04FreeRunB(sc, ca, fam, busy)
 			h.Emit(line, "-", oracle)
 		}
 	}
@@ -129,8 +142,22 @@ func c04Free(h *H, fam string) {
 		if fam == "c10" || h.R.Intn(4) == 0 {
 			ca = h.R.Intn(8)
 		}
-		o, oracle := c04FreeRun(sc, ca, fam)
-		h.Emit(fmt.Sprintf("free %s cancel=%d", sc.String(), ca), "-", oracle)
+		// every fifth run: a SELECT whose server never stops streaming Progress packets, cancelled at a later event
+		busy := i%5 == 4
+		pre := "free"
+		if busy {
+			pre = "busyfree"
+			sc = &c04Scen{kind: "sel", cut: -1, wf: -1, comp: h.R.Intn(3) == 0}
+			for k := h.R.Intn(4); k > 0; k-- {
+				sc.script = append(sc.script, c04SP{kind: []string{"data", "prog", "prof", "tot"}[h.R.Intn(4)], cb: "ok"})
+			}
+			if ca >= 0 {
+				ca = 2 + h.R.Intn(40)
+			}
+			h.Stat(fam + ".free.busy")
+		}
+		o, oracle := c04FreeRunB(sc, ca, fam, busy)
+		h.Emit(fmt.Sprintf("%s %s cancel=%d", pre, sc.String(), ca), "-", oracle)
 		h.Stat(fam + ".free." + sc.kind)
 		if o.closed {
 			h.Stat(fam + ".free.closed")
